@@ -21,6 +21,16 @@ TRUSTED = ("Trusted base: the simulator in /verif/sim (virtual-time loop, link m
 SIM = "deterministic simulation: virtual-time asyncio loop + simulated multicast link, seeded schedule/fault search, "
 
 CHECKS = {
+    "C03": {
+        "text": "Seeded search over registry histories (register/update/unregister of 0..6 services issued at arbitrary "
+                "virtual times, also while a registration is still probing) x queries (1..4 questions, every question "
+                "type, re-cased/unregistered/enumeration names) x known-answer lists around the half-TTL boundary, sent "
+                "from a legacy source port so the complete answer set returns in the unicast reply; the reply is decoded "
+                "independently and compared with an executable registry model (answers exact incl. TTL, additionals "
+                "sound and disjoint). Exploration: the claim is over registry histories and their timing.",
+        "technique": SIM + "ModelRegistry comparison per delivered query",
+        "design_ref": "DESIGN.md §5 C03",
+    },
     "C04": {
         "text": "Seeded search over response histories and clock advances (0 ms..hours) delivered to one real instance "
                 "with 1..3 AsyncServiceBrowsers started/cancelled at arbitrary points; invariants checked after every "
